@@ -74,7 +74,14 @@ claim("C10", "grammar/table agreement, inhabited-type analysis of unchecked asse
       "(R10e) every goroutine root that gRPC or `go` hands us crosses a recover before compiling/evaluating client text; (R10f) no lost wake-up on "
       "the import cache's condition variable. Index-out-of-range, nil dereference, recursion depth and termination are not decided.", NOTE, "DESIGN.md §3 C10")
 
-for pid in ["C02","C04","C05","C07","C09","C12","C13","C15","C16"]:
+claim("C15", "dominance of recorders over readers, flag-fixed reachability of host effects along all call paths from Compile, sibling agreement of archive-location derivations",
+      "Decides structural necessary conditions of bundle = sources: (R15a) every import read is either bundle-run-only or dominated by its recorder "
+      "with the error propagated; (R15b) no host access (network, process, host files, cwd) is reachable from Compile while isRunningBundle is true, "
+      "along every call path; (R15c) every recorder derives archive locations through the same mapping (bundleConfig.mainRoot/absRootPath or "
+      "createModulePath) that the runtime re-derives. That the computed archive path equals the runtime path for every layout is string algebra "
+      "and not decided.", NOTE, "DESIGN.md §3 C15")
+
+for pid in ["C02","C04","C05","C07","C09","C12","C13","C16"]:
     na(pid, "check under construction in this session (see DESIGN.md §3); not claimed until its rules are registered")
 na("C14", "agreement of a hand-written array matcher with strings/bytes over all sequences is a relation between runtime values computed by "
           "loops with data-dependent indices; no sound structural clause with teeth exists (DESIGN.md §3 C14)")
